@@ -8,7 +8,20 @@
    the correspondence check, which compares the account bytes with from_owned(value) after every step. *)
 From SF Require Import Base.Prelude Gen.Generated Unsized.Types Unsized.Parse Unsized.Machine Unsized.Ops.
 From SF Require Import Unsized.Proofs.EncodeParse Unsized.Proofs.Flat.
-From SF Require Import Unsized.Proofs.Layout Unsized.Proofs.Path Unsized.Proofs.Resize Unsized.Proofs.History.
+From SF Require Import Unsized.Proofs.Layout Unsized.Proofs.Path Unsized.Proofs.Resize Unsized.Proofs.History Unsized.Proofs.History2.
+
+(* the full operation set (stores, set_len, element-level insert / remove / clear of lists of unsized elements) *)
+Theorem C02_all_ops_canonical_after_any_history :
+  forall ovf t h v s top pi0 v',
+    RepF pi0 t v s top -> m_refuse s <> 1 -> orunX (m_cap s) t v h = Some v' ->
+    exists s' top', mrunX ovf t s top h = Ok (s', top') /\
+      ztake (m_len s') (m_mem s') = encode t v' /\ m_len s' = byte_size t v'.
+Proof.
+  intros ovf t h v s top pi0 v' R Hn Ho.
+  destruct (xrun_refines ovf t h v s top pi0 v' R Hn Ho) as (s' & top' & pi' & Hrun & R' & _).
+  exists s', top'. split; [exact Hrun|].
+  destruct (repf_observable ovf pi' t v' s' top' R') as (_ & Hb & Hl & _). auto.
+Qed.
 
 (* any shape, any depth, any history (operations that fail leave the value alone): the stored bytes are the canonical
    serialization of the owned model's value, with exact length *)
